@@ -94,6 +94,11 @@ def compare(ck, c, res, variant, values):
 
 
 def run(ck, only=None):
+    if only and only.get("cxxrow"):
+        cxx_layout_part(ck, only)
+        return
+    if not only:
+        cxx_layout_part(ck)
     w = 2
     cases = gen_c.enumerate_records(w)
     # member attributes on the last member (plain record attribute only)
@@ -109,6 +114,9 @@ def run(ck, only=None):
     # pointers to functions whose calling convention is (un)supported: alone and between small members
     fa = gen_c.enumerate_records(3, atoms=["char", "int"] + gen_c.FNPTR_ABI_ATOMS, rattrs=["plain", "packed"])
     oa += [c for c in fa if set(c.atoms) & set(gen_c.FNPTR_ABI_ATOMS) and (len(c.atoms) <= 2 or (c.atoms[1] in gen_c.FNPTR_ABI_ATOMS and c.atoms[0] == "char" and c.atoms[2] == "int"))]
+    # the <stdint.h> / <stddef.h> names: alone, after a char (padding shows the alignment), before a char (tail shows the size)
+    sn = gen_c.enumerate_records(2, atoms=["char"] + gen_c.STD_NAME_ATOMS, rattrs=["plain", "packed"], kinds=("struct",))
+    oa += [c for c in sn if set(c.atoms) & set(gen_c.STD_NAME_ATOMS) and (len(c.atoms) == 1 or "char" in c.atoms)]
     for i, c in enumerate(oa):
         c.tag = f"K{len(cases) + i + 1}"
     cases = cases + oa
@@ -124,7 +132,7 @@ def run(ck, only=None):
         # quick: all 1-member records, and the 2-member records of a VERIF_SEED-rotated third of the first-member atoms
         keys = [a.key for a in gen_c.ATOMS]
         pick = {k for i, k in enumerate(keys) if (i + ck.seed) % 6 == 0}
-        cases = [c for c in cases if len(c.atoms) == 1 or c.atoms[0] in pick or (set(c.atoms) & set(gen_c.OVERALIGNED_ARRAY_ATOMS + gen_c.FNPTR_ABI_ATOMS))]
+        cases = [c for c in cases if len(c.atoms) == 1 or c.atoms[0] in pick or (set(c.atoms) & set(gen_c.OVERALIGNED_ARRAY_ATOMS + gen_c.FNPTR_ABI_ATOMS + gen_c.STD_NAME_ATOMS))]
         ck.cap("quick tier: 2-member records whose first member is in a rotated sixth of the atom alphabet; thorough: all, plus 3-member "
                "records over a 13-atom sub-alphabet")
     if only:
@@ -159,6 +167,118 @@ def run(ck, only=None):
     ck.extra["presentation_variants"] = len(pres)
     ck.assume("host target x86_64-unknown-linux-gnu only; member values are boundary values per kind (negative for signed, all-ones "
               "for unsigned), not all values; bit-field members are covered by C03")
+
+
+CXX_LAYOUT = r"""
+struct Plain { int a; char b; };
+typedef int (Plain::*pmf_t)(int);
+typedef int Plain::*pmd_t;
+struct HoldsPM { char c; pmf_t f; pmd_t d; char tail; };
+struct Tbl { pmf_t fs[3]; int n; };
+struct Refs { int &r; const double &d; char c; };
+struct WithBool { bool b; wchar_t w; char16_t c16; char32_t c32; char z; };
+enum class Small : unsigned char { A, B };
+enum class Big : long long { X = 1LL << 40 };
+enum Plain8 : signed char { P8 = -1 };
+struct Enums { Small s; Big b; Small t; Plain8 p; int after; };
+struct Base1 { long x; };
+struct Derived1 : Base1 { char c; };
+struct Derived2 : Derived1 { int deep; };
+struct MultiA { int a; }; struct MultiB { long b; };
+struct Multi : MultiA, MultiB { char m; };
+struct Poly { virtual void f(); long v; };
+struct DerP : Poly { int k; long m; };
+struct Nested { struct In { short s; } in; In arr[2]; char t; };
+struct Empty {};
+struct HoldsEmpty { Empty e; int i; Empty e2; };
+struct Arr { int m[2][3]; Plain ps[2]; char tail; };
+struct Bits { unsigned a:3; bool f:1; long long w:40; char c; };
+union UN { pmd_t d; char c3[3]; };
+struct alignas(16) Al16 { char c; };
+struct HoldsAl { char c; Al16 a; char t; };
+template <typename T> struct Box { T t; char c; };
+struct UsesBox { Box<char> bc; Box<long> bl; Box<pmf_t> bp; char tail; };
+struct FnPtrs { void (*f)(int); int (Plain::*g)(); void *p; char c; };
+"""
+# type -> members probed with offsetof (Rust name == C++ name); bit-fields and bases are not named members
+CXX_LAYOUT_MEMBERS = {"Plain": ["a", "b"], "HoldsPM": ["c", "f", "d", "tail"], "Tbl": ["fs", "n"], "Refs": ["r", "d", "c"],
+                      "WithBool": ["b", "w", "c16", "c32", "z"], "Enums": ["s", "b", "t", "p", "after"], "Base1": ["x"], "Derived1": ["c"], "Derived2": ["deep"],
+                      "Multi": ["m"], "Poly": ["v"], "DerP": ["k", "m"], "Nested": ["in", "arr", "t"], "HoldsEmpty": ["e", "i", "e2"],
+                      "Arr": ["m", "ps", "tail"], "Bits": ["c"], "UN": [], "Al16": ["c"], "HoldsAl": ["c", "a", "t"],
+                      "UsesBox": ["bc", "bl", "bp", "tail"], "FnPtrs": ["f", "g", "p", "c"], "pmf_t": [], "pmd_t": []}
+
+
+def cxx_layout_part(ck, only=None):
+    """C++-only layout: pointers to members (data: 8 bytes, function: 16), references, bool / wide characters, scoped and
+    fixed-underlying-type enums, single / chained / multiple inheritance of POD bases, polymorphic bases without tail padding,
+    nested and empty classes, alignas, template instantiations. clang++-built probe vs rustc-built probe."""
+    import re
+    wd = os.path.join(ck.wd, "cxxlayout")
+    os.makedirs(wd, exist_ok=True)
+    hp = os.path.join(wd, "layout.hpp")
+    open(hp, "w").write(CXX_LAYOUT)
+    lines = ['#include <cstdio>', '#include <cstddef>', '#include "layout.hpp"', "int main() {"]
+    for t in CXX_LAYOUT_MEMBERS:
+        lines.append(f'  printf("T {t} %zu %zu\\n", sizeof({t}), alignof({t}));')
+        for f in CXX_LAYOUT_MEMBERS[t]:
+            lines.append(f'  printf("F {t} {f} %zu\\n", offsetof({t}, {f}));')
+    lines.append("  return 0; }")
+    open(os.path.join(wd, "probe.cc"), "w").write("\n".join(lines) + "\n")
+    rc, _, err = common.clang(["-x", "c++", "-std=c++14", "-w", "-Wno-invalid-offsetof", "probe.cc", "-o", "probe_c"], cwd=wd)
+    common.guard(rc == 0, "C02 C++ layout probe does not compile: " + err[:300])
+    cnum = {}
+    for l in common.sh([os.path.join(wd, "probe_c")]).stdout.decode().splitlines():
+        w = l.split()
+        cnum[tuple(w[:2]) if w[0] == "T" else tuple(w[:3])] = w[2:] if w[0] == "T" else w[3:]
+    rows = [("default", []), ("namespaces", ["--enable-cxx-namespaces"]), ("rust164", ["--rust-target", "1.64"]), ("explicit-padding", ["--explicit-padding"]),
+            ("no-derives", ["--no-derive-copy", "--no-derive-debug"])]
+    if only:
+        rows = [r for r in rows if r[0] == only.get("cxxrow")]
+    res = common.run_jobs([{"id": n, "args": [hp, "--no-layout-tests"] + fl + ["--", "-x", "c++", "-std=c++14"], "inventory": True} for n, fl in rows], wd, timeout=60)
+    for n, fl in rows:
+        r = res[n]
+        det = {"cxxrow": n}
+        if r["status"] != "ok":
+            ck.count()
+            ck.violation(f"cxx-layout row={n} generation-failed", dict(det, why=str(r)[:300]))
+            continue
+        idx = probes.index_inventory(r["inventory"])
+        pre = "b::root::" if n == "namespaces" else "b::"
+        bp = os.path.join(wd, f"b_{n.replace('-', '_')}.rs")
+        open(bp, "w").write(r["text"])
+        rl = ['#![allow(warnings)]', f'mod b {{ include!("{bp}"); }}', "use std::mem::{size_of, align_of, offset_of};", "fn main() {"]
+        for t, fs in CXX_LAYOUT_MEMBERS.items():
+            if t not in idx and t not in ("pmf_t", "pmd_t"):
+                ck.count()
+                ck.violation(f"cxx-layout row={n} type={t} not-emitted", dict(det, why=f"{t} has no definition in the bindings"))
+                continue
+            rl.append(f'  println!("T {t} {{}} {{}}", size_of::<{pre}{t}>(), align_of::<{pre}{t}>());')
+            have = {f["name"] for f in idx[t]["fields"]} if t in idx else set()
+            for f in fs:
+                rf = gen_c.rust_field(f)
+                if rf in have:
+                    rl.append(f'  println!("F {t} {f} {{}}", offset_of!({pre}{t}, {rf}));')
+                else:
+                    ck.count()
+                    ck.violation(f"cxx-layout row={n} member={t}.{f} missing", dict(det, why=f"{t}.{f} is not a member of the bindings' {t} ({sorted(have)})"))
+        rl.append("}")
+        mp = os.path.join(wd, f"main_{n.replace('-', '_')}.rs")
+        open(mp, "w").write("\n".join(rl) + "\n")
+        ok, err = common.rustc_bin(mp, mp[:-3], opt=False)
+        if not ok:
+            ck.count()
+            mm = re.findall(r"error(?:\[E\d+\])?: .*", err)
+            ck.violation(f"cxx-layout row={n} rustc-rejects", dict(det, why=" | ".join(mm[:3])[:400]))
+            continue
+        for l in common.sh([mp[:-3]]).stdout.decode().splitlines():
+            w = l.split()
+            key = tuple(w[:2]) if w[0] == "T" else tuple(w[:3])
+            val = w[2:] if w[0] == "T" else w[3:]
+            ck.count()
+            ck.nontriv(("cxxlayout", n) + key)
+            if cnum.get(key) != val:
+                ck.violation(f"cxx-layout row={n} {'.'.join(key[1:])} {'size-align' if w[0] == 'T' else 'offset'}", dict(det, why=f"{' '.join(key)}: C++ {cnum.get(key)} Rust {val}"))
+    ck.extra["cxx_layout_types"] = len(CXX_LAYOUT_MEMBERS)
 
 
 def replay(ck, case, detail):
